@@ -28,3 +28,10 @@ package lifecycle
 
 //verif:func (*Service).recoverPipeline(s, ctx, rp) (err)
 //verif:call[recovering-status-first] (*Service).StartWithBackoff requires succeeded("PipelineService.UpdateStatus") && arg2 == rp
+
+// C06: stop-and-wait returns nil only after stop, drain and persistence each
+// completed, in that order.
+//verif:func (*Service).StopAndWait(s, ctx, pipelineID) (err)
+//verif:call[wait-after-stop] (*Service).WaitPipeline requires succeeded("(*Service).Stop") && arg1 == pipelineID
+//verif:call[persisted-after-drain] ConnectorService.WaitPersisted requires succeeded("(*Service).Stop") && succeeded("(*Service).WaitPipeline")
+//verif:ensures[nil-means-all-three] err == nil ==> succeeded("(*Service).Stop") && succeeded("(*Service).WaitPipeline") && called("ConnectorService.WaitPersisted")
